@@ -865,6 +865,7 @@ def judge_wf(ctx, cfg, svals):
     base = ctx.impl(cfg, base_lines, IMPL)
     ctx.quiet = False
     lines, meta = [], []
+    xlines, xmeta = [], []
     for (s, fmt, ft), b in zip(base_meta, base):
         head, ex = split_ans(b)
         hf = head.split(' ')
@@ -878,8 +879,42 @@ def judge_wf(ctx, cfg, svals):
             meta.append((s, out, final, k))
         lines.append('wf %s %s %s - 1 %s %s' % (L, fmt, ft, rng.choice(CHUNKINGS), enc(s)))
         meta.append((s, out, final, None))
+        # one-shot failures and all-or-nothing bounded sinks (implementation only): the serializer must stop at the FIRST failed write —
+        # with a persistent failure a serializer that goes on writing after an error is indistinguishable from one that stops
+        for k in sorted(x for x in ks if 0 <= x < len(out)):
+            kind = rng.randrange(1, 7)
+            xlines.append('wf %s %s %s o%d %d %s %s' % (L, fmt, ft, k, kind, rng.choice(CHUNKINGS), enc(s)))
+            xmeta.append((s, out, final, 'o', k, kind))
+        for c in sorted(set([rng.randrange(0, len(out) + 1) for _ in range(4)] + [max(0, len(out) - 1), max(0, len(out) - 2)])):
+            kind = rng.randrange(1, 7)
+            xlines.append('wf %s %s %s b%d %d a %s' % (L, fmt, ft, c, kind, enc(s)))
+            xmeta.append((s, out, final, 'b', c, kind))
     io, mo = ctx.both(cfg, lines, impl_name=IMPL, model_name=MODEL)
     viol = []
+    xo = ctx.impl(cfg, xlines, IMPL)
+    for (s, out, final, mode, k, kind), line, a in zip(xmeta, xlines, xo):
+        def xbad(what, expected, actual):
+            f = line.split(' ')
+            viol.append({'what': what, 'cfg': cfg, 'input': hx(f[7].encode()), 'expected': expected, 'actual': actual, 'shrinkable': False,
+                         'aux': {'op': 'wf', 'fmt': f[2], 'k': f[4], 'kind': f[5], 'chunking': f[6]}, 'case': line})
+        if a == 'PANIC' or a.startswith('CRASH') or a == 'BADCASE':
+            xbad('crash', 'a result', a)
+            continue
+        m = re.fullmatch(r'(\S+) (.*) after=(\d+) fired=(true|false)', a)
+        if not m:
+            xbad('crash', 'a result', a)
+            continue
+        acc = bytes.fromhex(m.group(1)) if m.group(1) != '-' else b''
+        res, after, fired = m.group(2), int(m.group(3)), m.group(4) == 'true'
+        if not out.startswith(acc):
+            xbad('accepted-bytes-not-a-prefix', 'a prefix of ' + hx(out), a)
+        elif fired and after != 0:
+            xbad('writes-after-a-failed-write', 'no further write call after the first failure', a)
+        elif fired and res != 'err Io %d' % kind:
+            xbad('writer-failure-not-reported', 'err Io %d' % kind, a)
+        elif not fired and (res != final or acc != out):
+            xbad('fault-free-run-changed', hx(out) + ' ' + final, a)
+        ctx.count('wf-oneshot/bounded:' + ('io' if fired else 'clean'))
     for (s, out, final, k), line, a, m in zip(meta, lines, io, mo):
         def bad(what, expected, actual):
             f = line.split(' ')
